@@ -26,6 +26,7 @@ ASSUMPTIONS = [
 ]
 FLOORS = {"quick": {"decodes": 40000, "truncations": 15000, "wiretype_cells": 1500},
           "thorough": {"decodes": 2000000, "truncations": 800000, "wiretype_cells": 50000}}
+ANCHORS = ['load_fields', 'Message.load', 'Message._postprocess_single']
 CONTRACTS = []
 
 
